@@ -78,7 +78,8 @@ theorem good_withBlock {body : CM Unit} (hb : Good body) : Good (withBlock body)
     have := hr2.tlen
     rw [htr2, ht1] at this
     simpa using this
-  refine ⟨hi2.of_tables ?_ ?_ rfl rfl, hr2.transfer hin1 hl1 rfl rfl hlen, trivial⟩
+  have hc1 : s1.constants = s.constants := by subst hs1; rfl
+  refine ⟨hi2.of_tables ?_ ?_ rfl rfl, hr2.transfer hin1 hl1 rfl rfl hlen (by rw [← hc1]; exact hr2.csz), trivial⟩
   · intro h
     simp only at h
     rw [h, htr] at hlen
@@ -145,7 +146,9 @@ theorem st_withLoop_bind {β} {body : CM Unit} {f : Loop → CM β} {s0 s : CSta
   refine ⟨⟨hi2.ne, hi2.tabs, hi2.walk, ?_, hi2.consts, hi2.targets⟩, ?_, ?_, ?_⟩
   · intro l hl p hp
     exact hi2.loops l (by rw [hl2]; simp [hl]) p hp
-  · refine ⟨by rw [← hst.rel.tlen, ← ht1]; exact hr2.tlen, hst.rel.pre.trans hpre, hst.rel.llen, hst.rel.ltail, ?_⟩
+  · have hc1 : s1.constants = s.constants := by subst hs1; rfl
+    refine ⟨by rw [← hst.rel.tlen, ← ht1]; exact hr2.tlen, hst.rel.pre.trans hpre, hst.rel.llen, hst.rel.ltail, ?_,
+      Nat.le_trans hst.rel.csz (by rw [← hc1]; exact hr2.csz)⟩
     intro l l' h1 h2 p
     have := hst.rel.lhead l l' h1 h2 p
     exact this
@@ -162,7 +165,7 @@ theorem st_withLoop_bind {β} {body : CM Unit} {f : Loop → CM β} {s0 s : CSta
       rcases hh.2 hp with h' | h'
       · simp at h'
       · rw [hin1] at h'; omega
-    · exact ⟨(hst.pend p hp).1.pre hpre, (hst.pend p hp).2⟩
+    · exact ⟨⟨(hst.pend p hp).1.1.pre hpre, (hst.pend p hp).1.2.pre hpre⟩, (hst.pend p hp).2⟩
   · intro t ht
     exact (hst.tgt t ht).pre hpre
 
@@ -174,14 +177,13 @@ syntax "opc" : tactic
 macro_rules | `(tactic| opc) => `(tactic| first | decide | (split <;> decide))
 
 /-- side goals `StaticArgs op args` -/
+syntax "opa1" : tactic
+macro_rules | `(tactic| opa1) => `(tactic| first
+  | exact ⟨fun h => absurd h (by decide), fun h => absurd h (by decide), by decide⟩
+  | exact ⟨fun _ => rfl, fun h => absurd h (by decide), by decide⟩
+  | exact ⟨fun h => absurd h (by decide), fun _ => rfl, by decide⟩)
 syntax "opa" : tactic
-macro_rules | `(tactic| opa) => `(tactic| first
-  | exact ⟨fun h => absurd h (by decide), fun h => absurd h (by decide)⟩
-  | exact ⟨fun _ => rfl, fun h => absurd h (by decide)⟩
-  | exact ⟨fun h => absurd h (by decide), fun _ => rfl⟩
-  | (split <;> first
-      | exact ⟨fun h => absurd h (by decide), fun h => absurd h (by decide)⟩
-      | exact ⟨fun _ => rfl, fun h => absurd h (by decide)⟩))
+macro_rules | `(tactic| opa) => `(tactic| first | opa1 | (split <;> opa1))
 
 syntax "good_leaf" : tactic
 macro_rules | `(tactic| good_leaf) => `(tactic| first
@@ -204,12 +206,47 @@ macro_rules | `(tactic| good_bind) => `(tactic| (refine GoodP.bind (P := fun _ =
 syntax "good" : tactic
 macro_rules | `(tactic| good) => `(tactic| repeat' (first | good_leaf | good_bind | split))
 
-theorem good_emitConstant (pos : Pos) (v : CVal) : Good (emitConstant pos v) := by
-  unfold emitConstant; good
+theorem argsOK_const {nc : Nat} {a : Array UInt8} {op : Nat} {i : Nat} {rest : List Int}
+    (hc : isConstOp op = true) (hi : i < nc) : ArgsOK nc a op ((i : Int) :: rest) := by
+  have hnj : ¬ (isJumpOp op = true) := by
+    rcases isConstOp_cases hc with h | h <;> subst h <;> decide
+  have hnt : op ≠ OpSetupTry := by
+    rcases isConstOp_cases hc with h | h <;> subst h <;> decide
+  exact ⟨fun h => absurd h hnj, fun h => absurd h hnt, fun _ => ⟨i, rest, rfl, hi⟩⟩
 
-theorem good_emitFnConstant (pos : Pos) (fn : CFn) (nfree : Nat) (hf : FnOK fn) : Good (emitFnConstant pos fn nfree) := by
-  have := good_addFnConstant fn hf
-  unfold emitFnConstant; good
+theorem good_emitConstant (pos : Pos) (v : CVal) : Good (emitConstant pos v) := by
+  intro s hs
+  unfold emitConstant
+  apply Sat.bind
+  apply sat_addConstant hs
+  intro i s1 hi1 hr1 hlt _
+  unfold emit_
+  apply Sat.bind
+  apply sat_emit hi1 (by decide) (argsOK_const (by decide) hlt)
+  intro s2 hi2 hr2 _ _ _
+  exact Sat.pure ⟨hi2, hr1.trans hr2, trivial⟩
+
+macro_rules | `(tactic| good_leaf) => `(tactic| with_reducible exact good_emitConstant _ _)
+
+/-- `emitFnConstant` for a function that is well formed w.r.t. the current constant pool -/
+theorem sat_emitFnConstant {pos : Pos} {fn : CFn} {nfree : Nat} {s : CState} (hs : Inv s)
+    (hf : FnOK s.constants.size fn) :
+    Sat (emitFnConstant pos fn nfree) s (fun _ s' => Inv s' ∧ Rel s s' ∧ True) := by
+  unfold emitFnConstant
+  apply Sat.bind
+  apply sat_addFnConstant hs hf
+  intro i s1 hi1 hr1 hlt _
+  split
+  · unfold emit_
+    apply Sat.bind
+    apply sat_emit hi1 (by decide) (argsOK_const (by decide) hlt)
+    intro s2 hi2 hr2 _ _ _
+    exact Sat.pure ⟨hi2, hr1.trans hr2, trivial⟩
+  · unfold emit_
+    apply Sat.bind
+    apply sat_emit hi1 (by decide) (argsOK_const (by decide) hlt)
+    intro s2 hi2 hr2 _ _ _
+    exact Sat.pure ⟨hi2, hr1.trans hr2, trivial⟩
 
 theorem good_findSymbolSelf (name : String) : Good (findSymbolSelf name) := by
   unfold findSymbolSelf; good
@@ -370,8 +407,8 @@ theorem good_compileDefine (pos : Pos) (ident : String) (allow : Bool) (keyword 
         · apply Sat.bind
           unfold emit_
           apply Sat.bind
-          apply sat_emit hi1 (by decide) (StaticArgs.argsOK (by opa) _)
-          intro s2 hi2 hr2 _ ht2
+          apply sat_emit hi1 (by decide) (StaticArgs.argsOK (by opa) _ _)
+          intro s2 hi2 hr2 _ ht2 _
           apply Sat.pure
           -- the symbol under `ident` in the head table is still `sym`, which is not a CONSTLIT symbol
           unfold updateSym
@@ -481,16 +518,17 @@ theorem sat_modLoop_add {f : Loop → Loop} {p : Nat} {s0 s : CState} {ps ts : L
   unfold modLoop
   apply Sat.modify
   obtain ⟨hbd, hge⟩ := hst.pend p hp
+  have hcz := hst.rel.csz
   cases hl : s.loops with
   | nil =>
     simp only
     refine ⟨⟨hst.inv.ne, hst.inv.tabs, hst.inv.walk, fun l h => by simp at h, hst.inv.consts, hst.inv.targets⟩,
-      ⟨hst.rel.tlen, hst.rel.pre, ?_, ?_, fun l0 l' _ h' => by simp at h'⟩, trivial⟩
+      ⟨hst.rel.tlen, hst.rel.pre, ?_, ?_, fun l0 l' _ h' => by simp at h', hcz⟩, trivial⟩
     · have := hst.rel.llen; rw [hl] at this; simpa using this
     · have := hst.rel.ltail; rw [hl] at this; simpa using this
   | cons l r =>
     simp only [hl]
-    refine ⟨⟨hst.inv.ne, hst.inv.tabs, hst.inv.walk, ?_, hst.inv.consts, hst.inv.targets⟩, ⟨hst.rel.tlen, hst.rel.pre, ?_, ?_, ?_⟩, trivial⟩
+    refine ⟨⟨hst.inv.ne, hst.inv.tabs, hst.inv.walk, ?_, hst.inv.consts, hst.inv.targets⟩, ⟨hst.rel.tlen, hst.rel.pre, ?_, ?_, ?_, hcz⟩, trivial⟩
     · intro l' hl' q hq
       simp at hl'
       rcases hl' with hl' | hl'
@@ -535,7 +573,7 @@ theorem good_compileBranch (pos : Pos) (tok : Nat) : Good (compileBranch pos tok
           emit_ pos OpFinalizer [‹Loop›.lastTryCatchIndex + 1] else Pure.pure ()) := by good
       apply st_good_bind hf hst
       intro _ s3 _ hst
-      apply st_emit_bind hst (by decide) (.inl (by opa))
+      apply st_emit_bind hst (by decide) (.inl rfl) (.inl (by opa))
       intro s4 hst
       split
       · exact sat_modLoop_add (p := s3.insts.size) hst (by simp) (fun l q => by simp; exact fun h => .inl h)
@@ -555,14 +593,28 @@ theorem good_finishFn : Good finishFn := by
   | none => rw [hsc] at this; simp at this
   | some r => exact good_finishTail r.1 r.2 s hs
 
-theorem goodP_finishTail (lastOp : Nat) (pend : List Nat) :
-    GoodP (fun fn => StreamOK fn.insts) (finishTail lastOp pend) := by
-  unfold finishTail
-  refine GoodP.bind (P := fun _ => True) (by good) fun _ _ => ?_
-  refine GoodP.bind goodP_get_inv fun st hst => ?_
-  exact GoodP.bind good_headTable fun t _ => GoodP.pure ⟨hst.walk, hst.targets⟩
+/-- `GoodS`: like `GoodP`, with a result condition that may mention the final state -/
+def GoodS {α} (P : α → CState → Prop) (m : CM α) : Prop :=
+  ∀ s, Inv s → Sat m s (fun a s' => Inv s' ∧ Rel s s' ∧ P a s')
 
-theorem goodP_finishFn : GoodP (fun fn => StreamOK fn.insts) finishFn := by
+theorem goodS_finishTail (lastOp : Nat) (pend : List Nat) :
+    GoodS (fun fn s' => StreamOK s'.constants.size fn.insts) (finishTail lastOp pend) := by
+  intro s hs
+  unfold finishTail
+  have h1 : Good (if (lastOp != OpReturn || !pend.isEmpty) = true then emit_ 0 OpReturn [0] else Pure.pure ()) := by good
+  apply Sat.bind
+  apply Sat.mono (h1 s hs)
+  intro _ s1 ⟨hi1, hr1, _⟩
+  apply Sat.bind
+  apply Sat.get
+  apply Sat.bind
+  apply Sat.mono (good_headTable s1 hi1)
+  intro t s2 ⟨hi2, hr2, _⟩
+  apply Sat.pure
+  refine ⟨hi2, hr1.trans hr2, ?_⟩
+  exact ⟨hi1.walk, hi1.targets.mono hr2.csz⟩
+
+theorem goodS_finishFn : GoodS (fun fn s' => StreamOK s'.constants.size fn.insts) finishFn := by
   intro s hs
   unfold finishFn
   apply Sat.bind
@@ -570,10 +622,10 @@ theorem goodP_finishFn : GoodP (fun fn => StreamOK fn.insts) finishFn := by
   have := scanFn_some (s.insts.size + 1) 0 0 [] hs.walk
   cases hsc : scanFn s.insts (s.insts.size + 1) 0 0 [] with
   | none => rw [hsc] at this; simp at this
-  | some r => exact goodP_finishTail r.1 r.2 s hs
+  | some r => exact goodS_finishTail r.1 r.2 s hs
 
-theorem goodP_withFn (pos : Pos) (variadic : Bool) (params : List String) {body : CM Unit} (hb : Good body) :
-    GoodP (fun r => StreamOK r.1.insts) (withFn pos variadic params body) := by
+theorem goodS_withFn (pos : Pos) (variadic : Bool) (params : List String) {body : CM Unit} (hb : Good body) :
+    GoodS (fun r s' => StreamOK s'.constants.size r.1.insts) (withFn pos variadic params body) := by
   intro s hs
   obtain ⟨t, r, htr⟩ : ∃ t r, s.tables = t :: r := by
     cases h : s.tables with
@@ -608,7 +660,7 @@ theorem goodP_withFn (pos : Pos) (variadic : Bool) (params : List String) {body 
   apply Sat.mono (hb s3 hi3)
   intro _ s4 ⟨hi4, hr4, _⟩
   apply Sat.bind
-  apply Sat.mono (goodP_finishFn s4 hi4)
+  apply Sat.mono (goodS_finishFn s4 hi4)
   intro fn s5 ⟨hi5, hr5, hfn⟩
   obtain ⟨t5, r5, htr5⟩ : ∃ t r, s5.tables = t :: r := by
     cases h : s5.tables with
@@ -633,7 +685,12 @@ theorem goodP_withFn (pos : Pos) (variadic : Bool) (params : List String) {body 
     rw [ht3] at h4
     simp at h5
     omega
-  refine ⟨⟨?_, ?_, hi2.walk, hi2.loops, hi5.consts, hi2.targets⟩, hr2.transfer hin1 hl1 rfl rfl hlen, hfn⟩
+  have hc3 : s3.constants = s2.constants := by subst hs3; rfl
+  have hc1 : s1.constants = s.constants := by subst hs1; rfl
+  have hcz : s2.constants.size ≤ s5.constants.size := by
+    have := hr4.csz; have := hr5.csz; rw [hc3] at *; omega
+  refine ⟨⟨?_, ?_, hi2.walk, hi2.loops, hi5.consts, hi2.targets.mono hcz⟩,
+    hr2.transfer hin1 hl1 rfl rfl hlen (by have := hr2.csz; rw [hc1] at this; exact Nat.le_trans this hcz), hfn⟩
   · intro h
     simp only at h
     rw [h, htr] at hlen
